@@ -39,7 +39,7 @@ def gen_tree(rng, R, vid, uid, arches, depth, top=False):
     rel = gen_release(rng, R, layered=True) if vtype == "layered-product" else dict(FRESH_REL)
     children = {}
     if depth < 3:
-        for cid in rng.sample(["optional", "HA", "RS", "SAP", "NFV"], rng.choice([0, 0, 1, 2, 3]) if depth < 2 else rng.choice([0, 1])):
+        for cid in rng.sample(["optional", "HA", "RS", "SAP", "NFV", "ha", "Ha", "sap"], rng.choice([0, 0, 1, 2, 3, 4]) if depth < 2 else rng.choice([0, 1])):
             ca = sorted(rng.sample(arches, rng.randint(1, len(arches))))
             children[cid] = gen_tree(rng, R, cid, "%s-%s" % (uid, cid), ca, depth + 1)
     return [fields, gen_paths(rng, R, arches), rel, children]
@@ -64,8 +64,23 @@ def gen_ci(rng, R=None):
 
 
 def generate(rng, n):
+    """for the write/read cycle: the id is a free-form field, it need not agree with date/type/respin stored next to it"""
     R = reflect()
-    return [gen_ci(rng, R) for _ in range(n)]
+    out = []
+    for _ in range(n):
+        c = gen_ci(rng, R)
+        comp = c["desc"][0]
+        k = rng.random()
+        if k < 0.15:
+            comp["respin"] = rng.choice([0, 0, comp["respin"] + 1])
+        elif k < 0.25:
+            comp["type"] = rng.choice(R["COMPOSE_TYPES"])
+        elif k < 0.32:
+            comp["date"] = "20150522"
+        elif k < 0.4:
+            comp["id"] = rng.choice(["F-22-20150522.xyz.3", "F-22-20150522", "Custom-1-20150522.n"])
+        out.append(c)
+    return out
 
 
 def build(desc):
